@@ -1926,7 +1926,22 @@ impl<'a> FnTr<'a> {
             }
             Expr::Match(m) => self.match_expr(m, env, st, expect),
             Expr::Block(b) => {
-                let (s, ty) = self.block_val(&b.block.stmts, env, expect)?;
+                // builder B: as for the then-branch of a tail `if let` — a block (match arm) with `let x = e?;` lets in the
+                // function's tail position of a state-passing method continues as statements; only where the value-block
+                // translation refuses
+                let stmt_tail = STMT_TAIL.with(|t| t.get());
+                let mut env_try = env.clone();
+                let (s, ty) = match self.block_val(&b.block.stmts, &mut env_try, expect.clone()) {
+                    Ok(r) => {
+                        *env = env_try;
+                        r
+                    }
+                    Err(e) if e.contains("early exit inside a value block") && !self.muts.is_empty() && !self.reg.io.borrow().mode && stmt_tail => {
+                        let seq = self.block_tail(&b.block.stmts, env)?;
+                        (seq, expect.clone().unwrap_or(self.ret.clone()))
+                    }
+                    Err(e) => return Err(e),
+                };
                 st.extend(s.stmts);
                 Ok((s.tail, ty))
             }
